@@ -452,6 +452,57 @@ fn files(out: &mut Out, rng: &mut Rng, thorough: bool, only: Option<&str>) {
                 out.emit(Ev::new("file_data").str("v", v.name()).bytes("data", &d1).raw("r", &outcome_json(&o)).meas(o.a, &o.p));
             }
         }
+        // path forms: a symlink, a relative path with `.` and `..`, a descriptor link to a file that has been
+        // unlinked, a descriptor link to an anonymous pipe (both have no name any more), a dangling symlink
+        {
+            use std::os::unix::io::AsRawFd;
+            let data = rng.bytes(3000);
+            let real = std::path::PathBuf::from(format!("{}/p-{}-{}.bin", dir, std::process::id(), v.name()));
+            std::fs::write(&real, &data).expect("write temp file");
+            let link = std::path::PathBuf::from(format!("{}/l-{}-{}", dir, std::process::id(), v.name()));
+            let _ = std::fs::remove_file(&link);
+            let mut emit_data = |out: &mut Out, why: &str, o: Obs<Result<Vec<u8>, (String, String)>>| {
+                out.emit(Ev::new("file_data").str("v", v.name()).str("why", why).bytes("data", &data).raw("r", &outcome_json(&o)).meas(o.a, &o.p));
+            };
+            if std::os::unix::fs::symlink(&real, &link).is_ok() {
+                emit_data(out, "symlink", v.hash_file(&link));
+                let _ = std::fs::remove_file(&link);
+            }
+            if let Some(name) = real.file_name().and_then(|n| n.to_str()) {
+                let dotted = std::path::PathBuf::from(format!("{}/./../{}/{}", dir, std::path::Path::new(&dir).file_name().and_then(|n| n.to_str()).unwrap_or("."), name));
+                emit_data(out, "dotted", v.hash_file(&dotted));
+            }
+            if let Ok(f) = std::fs::File::open(&real) {
+                let _ = std::fs::remove_file(&real);
+                let fdpath = std::path::PathBuf::from(format!("/proc/self/fd/{}", f.as_raw_fd()));
+                if fdpath.exists() {
+                    emit_data(out, "unlinked", v.hash_file(&fdpath));
+                }
+            }
+            let _ = std::fs::remove_file(&real);
+            let mut fds = [0i32; 2];
+            if unsafe { libc::pipe(fds.as_mut_ptr()) } == 0 {
+                let (rfd, wfd) = (fds[0], fds[1]);
+                let d2 = data.clone();
+                let w = std::thread::spawn(move || {
+                    use std::io::Write;
+                    use std::os::unix::io::FromRawFd;
+                    let mut f = unsafe { std::fs::File::from_raw_fd(wfd) };
+                    let _ = f.write_all(&d2);
+                });
+                let fdpath = std::path::PathBuf::from(format!("/proc/self/fd/{}", rfd));
+                let o = v.hash_file(&fdpath);
+                let _ = w.join();
+                // if the library never opened the pipe, the writer has finished or failed; either way close our end
+                unsafe { libc::close(rfd) };
+                emit_data(out, "pipe", o);
+            }
+            if std::os::unix::fs::symlink(format!("{}/nowhere-{}", dir, std::process::id()), &link).is_ok() {
+                let o = v.hash_file(&link);
+                let _ = std::fs::remove_file(&link);
+                out.emit(Ev::new("file_err").str("v", v.name()).str("why", "missing").raw("r", &outcome_json(&o)).meas(o.a, &o.p));
+            }
+        }
         // a FIFO (size 0 in metadata, short reads) carrying more than one buffer of periodic content
         let fifo = std::path::PathBuf::from(format!("{}/fifo-{}-{}", dir, std::process::id(), v.name()));
         let _ = std::fs::remove_file(&fifo);
